@@ -276,6 +276,33 @@ def check_fill_queue(ctx, rep, rules=('B-acc', 'X-opsites', 'W-iter')):
                 for i, a in enumerate(e['args']):
                     if any(x[0] == 'param' and x[2] == 'operation' for x in sym.walk(a)):
                         uses.add((short(e['callee']), i))
+    # (a) branches that depend on the operation: only the test `operation != Difference` (the exterior flag) may
+    branch_conds = set()
+    for p in ps:
+        for e in p.events:
+            if e['k'] == 'branch' and e.get('depth', 0) == 0 and any(x[0] == 'param' and x[2] == 'operation' for x in sym.walk(e['val'])):
+                v = strip_upd(e['val'])
+                okc = v[0] == 'op' and v[1] in ('ne', 'eq') and param_name(v[2]) == 'operation' and show(v[3]).endswith('Difference{}')
+                if not okc:
+                    branch_conds.add((show(noepoch(v))[:80], e['line']))
+    for (c, line) in sorted(branch_conds):
+        rep.ob(R_OPS, 'operation-dependent-branch', False,
+               'fill_queue branches on `%s`: the only operation-dependent decision allowed here is `operation != Difference` for the '
+               'exterior flag / contour id of clipping polygons (every ring of both operands must be queued for every operation)' % c,
+               loc=b.loc(line), reason='dominance')
+    # (b) every iteration of every ring loop hands its ring to process_polygon
+    n_iter = 0
+    for p in ps:
+        if p.end != 'backedge':
+            continue
+        last = max(i for i, e in enumerate(p.events) if e['k'] == 'loophead' and e['bb'] == p.end_info)
+        n_iter += 1
+        called = any(e['k'] == 'call' and e['depth'] == 0 and e['callee'].endswith('process_polygon') for e in p.events[last:])
+        rep.ob(R_OPS, 'every-ring-queued', called,
+               'a path through a polygon/ring loop of fill_queue reaches the next iteration without calling process_polygon: some ring of '
+               'an operand is not queued (conditions: %s)' % [show(noepoch(v))[:50] for v, _ in p.conds][-3:],
+               loc=b.loc(p.events[last].get('line', b.j['line_lo'])) if False else b.loc(b.j['line_lo']), reason='dominance')
+    rep.floor(R_OPS, 'loop iteration paths of fill_queue', n_iter, 4)
     allowed = {('fill_queue::process_polygon', 5)}
     extra = sorted(u for u in uses if u[0] != 'branch' and u not in allowed)
     rep.ob(R_OPS, 'operation-reaches-only-exterior-flag', not extra,
